@@ -101,8 +101,21 @@ def flowWarpImage : Reader String := do
   let u ← readField d size
   pure (fmtRats ((allIdx d size).map (fun idx => warpImageAt ac pad size img (latticePoint ac size idx) (u idx))))
 
+/-- `flow.bch d size… bch_terms u v vu vvu uvu uvvu` (compose_svfs given the bracket fields) -/
+def flowBch : Reader String := do
+  let d ← nat
+  let size ← natVec d
+  let k ← nat
+  let u ← readField d size
+  let v ← readField d size
+  let vu ← readField d size
+  let vvu ← readField d size
+  let uvu ← readField d size
+  let uvvu ← readField d size
+  pure (fmtField size (bchCombine k u v vu vvu uvu uvvu))
+
 def flowHandlers : List (String × Reader String) :=
   [ ("flow.expv", flowExpv), ("flow.compose", flowCompose), ("flow.axes", flowAxesH), ("flow.exp", flowExpH),
-    ("flow.warp_image", flowWarpImage) ]
+    ("flow.warp_image", flowWarpImage), ("flow.bch", flowBch) ]
 
 end Deepali.Drv
